@@ -36,7 +36,9 @@ ASSUMPTIONS = [
     'expm: algopy.expm is a fixed Pade-7 approximant without scaling: domain ||A0||_1 <= 0.5; reference mpmath.expm(A(t)) differentiated numerically at >= 150 digits, second opinion = defining power series; tolerance 1e-8 * max(1, max|ref|)',
     'solve with a 1-D right-hand side is outside the statement ("matrix and multi-column right-hand sides"); the code states its precondition x.data.shape=(D,P,M,K): counted as declared rejection, a returned value would be checked',
     'operands are handed over as fresh C-contiguous arrays or (1/3) as transposed views X.T; after the call the operand must be bit-identical to what was passed (the equations are statements about the curve the caller holds)',
-    'N-D trace, 0-d operands of dot, complex data are outside the domain',
+    'out= of the class methods UTPM.dot/outer/inv/solve (1/4 of the cases): zeros, non-zero garbage, and solve(A, x, out=x); return value and buffer contents must satisfy the same oracle; UTPM.inv(out=...) raises NotImplementedError = declared rejection',
+    'complex coefficient data only where the kernels of this tree handle it: dot, outer (the operand that fixes the result dtype complex), inv, solve with a UTPM right-hand side, trace, expm; det/logdet and solve(UTPM, ndarray) raise UFuncTypeError for complex data (float work arrays) -- documented in notes/C07.md, not asserted',
+    'N-D trace, 0-d operands of dot are outside the domain',
     'mpmath, NumPy, SciPy/LAPACK are trusted',
 ]
 
@@ -232,6 +234,69 @@ def _same(case, keys, live, what):
 def with_layout(draw, strat, nops):
     case = draw(strat)
     case['lay'] = ''.join(draw(st.sampled_from(['C', 'C', 'T'])) for _ in range(nops))
+    # out= of the public class methods UTPM.dot / outer / inv / solve (1/4 of the cases; only the class methods take it)
+    if case['op'] in ('dot', 'outer', 'inv', 'solve'):
+        modes = [None] * 6 + ['zeros', 'garbage']
+        if case['op'] == 'solve' and case['kind'][1] == 'U':
+            modes += ['alias-rhs', 'garbage']        # solve(A, x, out=x): in-place solve
+        m = draw(st.sampled_from(modes))
+        if m is not None:
+            case['out'] = m
+            case['entry'] = 'class'
+    return case
+
+
+ANGLE = gen.nice_floats(-3.1, 3.1)
+
+
+@st.composite
+def _imag_like(draw, a, is_utpm, mag=1.0):
+    if is_utpm:
+        D, P = a.shape[:2]
+        return draw(gen.utpm_data(D, P, a.shape[2:], gen.interval_union((-2.0 * mag, 2.0 * mag)), mag=mag))
+    return draw(gen.float_array(a.shape, gen.interval_union((-2.0 * mag, 2.0 * mag)), sparse=False))
+
+
+@st.composite
+def with_complex(draw, strat, keys, regular=(), must=None, expm=False):
+    """complex coefficient data for the operations whose kernels handle it on this tree (dot, outer, inv, solve with a
+    UTPM right-hand side, trace, expm).  ``regular`` operands keep their singular values: A_0 -> diag(e^{i a}) A_0 diag(e^{i b});
+    other operands get an arbitrary imaginary part.  ``must``: operand that has to be complex (outer takes its result dtype
+    from one operand only)."""
+    case = draw(strat)
+    kind = case.get('kind') or 'U' * len(keys)
+    chosen = [k for k in keys if draw(st.booleans())]
+    if must is not None and must not in chosen:
+        chosen.append(must)
+    if not chosen:
+        chosen = [keys[0] if must is None else must]
+    for k in chosen:
+        a = np.asarray(case[k], dtype=float)
+        is_u = kind[keys.index(k)] == 'U'
+        if expm:
+            ph = np.exp(1j * draw(gen.float_array(a.shape[1:], ANGLE, sparse=False)))
+            z = a.astype(complex)
+            z[0] = a[0] * ph                                   # |entries| and hence ||A_0||_1 unchanged
+            if a.shape[0] > 1:
+                z[1:] = 0.7 * (a[1:] + 1j * draw(_imag_like(a, True, mag=0.5))[1:])
+        elif k in regular:
+            n = a.shape[-1]
+            z = a.astype(complex)
+            if is_u:
+                for p in range(a.shape[1]):
+                    l = np.exp(1j * draw(gen.float_array((n,), ANGLE, sparse=False)))
+                    r = np.exp(1j * draw(gen.float_array((n,), ANGLE, sparse=False)))
+                    z[0, p] = l[:, None] * a[0, p] * r[None, :]
+                if a.shape[0] > 1:
+                    z[1:] = a[1:] + 1j * draw(_imag_like(a, True))[1:]
+            else:
+                l = np.exp(1j * draw(gen.float_array((n,), ANGLE, sparse=False)))
+                r = np.exp(1j * draw(gen.float_array((n,), ANGLE, sparse=False)))
+                z = l[:, None] * a * r[None, :]
+        else:
+            z = a + 1j * draw(_imag_like(a, is_u))
+        case[k] = z
+    case['cplx'] = ''.join('c' if k in chosen else 'r' for k in keys)
     return case
 
 
@@ -258,18 +323,33 @@ def prop_binary(case, stats):
     x, y = case['x'], case['y']
     what = '%s[%s %s.%s]' % (op, kind, x.shape[2:] if kind[0] == 'U' else x.shape, y.shape[2:] if kind[1] == 'U' else y.shape)
     live = _live(case, ('x', 'y'))
-    z = guard(_fn(case), *live)
+    ref, scale = R.conv_with_scale(R.as_series(x, kind[0], D, P), R.as_series(y, kind[1], D, P), npop)
+    buf = None
+    if case.get('out'):
+        buf = UTPM(R.out_buffer(ref.shape, ref.dtype, case['out']))
+        what += '[out=%s]' % case['out']
+        z = guard(getattr(UTPM, op), *live, out=buf)
+    else:
+        z = guard(_fn(case), *live)
     _same(case, ('x', 'y'), live, what)
     _is_utpm(z, what)
-    ref, scale = R.conv_with_scale(R.as_series(x, kind[0], D, P), R.as_series(y, kind[1], D, P), npop)
     R.check_close(z.data, ref, scale, TOL_CONV, stats, what)
+    if buf is not None:
+        if KF.is_open('KF-out-ignored') and not case.get('assert_out'):      # (the finding's reproducer sets assert_out)
+            stats.exclude('KF-out-ignored')        # the buffer is not filled: only the return value is asserted while open
+        else:
+            R.check_close(buf.data, ref, scale, TOL_CONV, stats, what + ': contents of the out buffer')
 
 
 def prop_inv(case, stats):
     A = case['A']
     D, P, n, _ = A.shape
     live = _live(case, ('A',))
-    Y = guard(_fn(case), *live)
+    if case.get('out'):
+        # UTPM.inv raises NotImplementedError for out != None: declared rejection
+        Y = guard(UTPM.inv, *live, out=UTPM(R.out_buffer(A.shape, A.dtype, case['out'])))
+    else:
+        Y = guard(_fn(case), *live)
     _same(case, ('A',), live, 'inv')
     _is_utpm(Y, 'inv')
     if Y.data.shape != A.shape:
@@ -301,9 +381,35 @@ def _check_solve(case, X, stats, what):
 def prop_solve(case, stats):
     kind = case['kind']
     live = _live(case, ('A', 'B'))
-    X = guard(_fn(case), *live)
-    _same(case, ('A', 'B'), live, 'solve[%s]' % kind)
-    _check_solve(case, X, stats, 'solve[%s]' % kind)
+    what = 'solve[%s]' % kind
+    mode = case.get('out')
+    buf = None
+    if mode:
+        D, P = _DP(case)
+        shp = R.as_series(case['B'], kind[1], D, P).shape
+        dt = np.result_type(case['A'].dtype, case['B'].dtype, np.float64)
+        what += '[out=%s]' % mode
+        if mode == 'alias-rhs' and live[1].data.dtype == dt:
+            buf = live[1]                                     # in-place: the solution overwrites the right-hand side
+        else:
+            mode = 'garbage' if mode == 'alias-rhs' else mode
+            buf = UTPM(R.out_buffer(shp, dt, mode))
+        X = guard(UTPM.solve, *live, out=buf)
+    else:
+        X = guard(_fn(case), *live)
+    if buf is live[1]:
+        _same(case, ('A',), live[:1], what)
+    else:
+        _same(case, ('A', 'B'), live, what)
+    if buf is not None and X is not buf:
+        # the call allocated a new result (one plain operand): return value checked, buffer contents are a known finding
+        _check_solve(case, X, stats, what)
+        if KF.is_open('KF-out-ignored') and not case.get('assert_out'):
+            stats.exclude('KF-out-ignored')
+            return
+        _check_solve(case, buf, stats, what + ': contents of the out buffer')
+        return
+    _check_solve(case, X, stats, what)
 
 
 SOLVE_DECLARED = ('require x.data.shape=(D,P,M,K)', 'not enough values to unpack')
@@ -442,6 +548,12 @@ def _classes(case):
         c.append('entry=' + case['entry'])
     if 'T' in case.get('lay', ''):
         c.append('layout=transposed-view operand')
+    if case.get('out'):
+        c.append('out=' + case['out'])
+        c.append('out=%s,op=%s' % (case['out'], case['op']))
+    if case.get('cplx'):
+        c.append('complex-data')
+        c.append('complex-data,op=%s,operands=%s' % (case['op'], case['cplx']))
     ops = _utpm_operands(case)
     c.append('pattern=' + gen.pattern_class(ops[0]))
     # an identically zero coefficient layer (all directions, all elements) below a non-zero one, layer 0 included
@@ -516,4 +628,25 @@ def buckets(tier):
                      nontrivial=_nontrivial, classes=_classes))
     bl.append(Bucket('expm', (lambda: with_layout(expm_cases(tier), 1)), prop_expm, {'quick': 50, 'thorough': 300},
                      nontrivial=_nontrivial, classes=_classes, shards={'quick': 4, 'thorough': 8}, weight=40.0))
+    # complex coefficient data: the operations whose kernels handle it on this tree (see notes/C07.md for the others)
+    for kind in KINDS:
+        bl.append(Bucket('dot:complex:' + kind,
+                         (lambda kind=kind: with_layout(with_complex(
+                             st.sampled_from(RANKPAIRS).flatmap(lambda r: dot_cases(r[0], r[1], kind, tier)), ('x', 'y')), 2)),
+                         prop_binary, {'quick': 100, 'thorough': 1500}, nontrivial=_nontrivial, classes=_classes))
+        bl.append(Bucket('outer:complex:' + kind,
+                         (lambda kind=kind: with_layout(with_complex(outer_cases(kind, tier), ('x', 'y'),
+                                                                     must=('y' if kind == 'NU' else 'x')), 2)),
+                         prop_binary, {'quick': 60, 'thorough': 800}, nontrivial=_nontrivial, classes=_classes))
+    bl.append(Bucket('inv:complex', (lambda: with_layout(with_complex(inv_cases(tier), ('A',), regular=('A',)), 1)), prop_inv,
+                     {'quick': 80, 'thorough': 1000}, nontrivial=_nontrivial, classes=_classes, weight=2.0))
+    for kind in ('UU', 'NU'):
+        bl.append(Bucket('solve:complex:' + kind,
+                         (lambda kind=kind: with_layout(with_complex(solve_cases(kind, tier), ('A', 'B'), regular=('A',)), 2)),
+                         prop_solve, {'quick': 80, 'thorough': 1000}, nontrivial=_nontrivial, classes=_classes, weight=2.0))
+    bl.append(Bucket('trace:complex', (lambda: with_layout(with_complex(trace_cases(tier), ('A',)), 1)), prop_trace,
+                     {'quick': 60, 'thorough': 600}, nontrivial=_nontrivial, classes=_classes))
+    bl.append(Bucket('expm:complex', (lambda: with_layout(with_complex(expm_cases(tier), ('A',), expm=True), 1)), prop_expm,
+                     {'quick': 30, 'thorough': 200}, nontrivial=_nontrivial, classes=_classes,
+                     shards={'quick': 2, 'thorough': 4}, weight=60.0))
     return bl
